@@ -19,8 +19,8 @@ ASSUMPTIONS = ["rfc1738 inputs are C strings (no NUL) shorter than INT_MAX (the 
                "plain char is signed on the build platform (dumped every run; the model follows the dumped value)",
                "the C locale for isalpha/isdigit inside Tokenizer::int64"]
 MANIFEST = {
-    "text": "full for ignore sets without '%' and for rfc1738 flag sets that escape '%' (UNSAFE without NOPERCENT): theorems decode_encode, "
-            "encode_alphabet, decode_accepts_iff_wellformed, unescape_escape, unescape_in_place_safe, escape_fits_buffer hold for every byte string "
+    "text": "full for ignore sets without '%' and for rfc1738 flag sets that escape '%' (UNSAFE without NOPERCENT): theorems decode_encode_partial, "
+            "encode_alphabet, decode_accepts_iff_wellformed, unescape_escape_partial, unescape_in_place_safe, escape_fits_buffer hold for every byte string "
             "in models that follow AnyP::Uri::Encode/Decode (over a Tokenizer model) and rfc1738_do_escape/rfc1738_unescape (buffer, indices, "
             "snprintf) branch by branch; counterexamples are proved for ignore sets containing '%' (PathChars) and for NOPERCENT / no-UNSAFE flag sets, "
             "which are outside the statement; the real functions run under ASan/UBSan against the models and a direct round-trip/alphabet oracle, "
@@ -495,7 +495,10 @@ def tag(line, impl, model):
 
 
 def classify(line, impl, why):
-    return None
+    # no known findings in this area; failures are grouped per operation and failure kind so that one defect gives one report
+    w = line.split(" ")
+    kind = "sanitizer" if impl.startswith("abort:") else re.sub(r"[^a-z]+", "-", why.split(",")[0].split(":")[0].lower())[:60]
+    return "C31-unclassified-%s-%s" % (w[0], kind)
 
 
 def exhaustive(tier):
